@@ -7,7 +7,7 @@
 (*  tree  : [t, i, op, files : <<[id, inside, rel]>>]   the temporary tree of an end-to-end   *)
 (*          trace: every file has a unique content id; inside = it lies under the served      *)
 (*          root, rel = its path relative to that root (inside files).                        *)
-(*  serve : [t, i, op, api, path, status, served, exc]  one request: path = the untrusted     *)
+(*  serve : [t, i, op, api, path, status, served, exc, model]  one request: path = the untrusted *)
 (*          (percent-decoded) path handed to the helper, served = id of the file whose        *)
 (*          content came back (0 = none, 999 = a body that is no file of the tree).           *)
 (*  san   : [t, i, op, x, nfkd, out, out2, exc, has_exp, exp]   secure_filename(x) = out,     *)
@@ -63,7 +63,7 @@ Named(ln) == LET p == NormPath(ln.path)
 ServeDrift(ln) ==
   LET m == SafeJoin("code", <<114>>, <<ln.path>>)
       want == IF m.ok THEN Named(ln) ELSE 0 IN
-  Drift(ln, ln.exc = "" /\ ln.served = want, "served file vs the file PathSafety!SafeJoin names")
+  Drift(ln, ~ln.model \/ (ln.exc = "" /\ ln.served = want), "served file vs the file PathSafety!SafeJoin names")
 
 (* ---- a helper call observed with the name of the file it opened (repository tests, loader kinds) --- *)
 \*  open : [t, i, op, api, root, cwd, file, opened, status, exc]   root = the exported / trusted directory
@@ -95,6 +95,10 @@ Next ==
        [] ln.op = "serve" -> /\ UNCHANGED tree
                              /\ Reject(ln, ServeClause(ln))
                              /\ ServeDrift(ln)
+       [] ln.op = "servelink" ->        \* observation only: the property is lexical ("once normalised")
+                            /\ UNCHANGED tree
+                            /\ Drift(ln, ~(ln.status = 200 /\ ~FileById(ln.served).inside),
+                                     "observation: a symbolic link inside the root that points outside is followed")
        [] ln.op = "open" -> /\ UNCHANGED tree
                             /\ Reject(ln, OpenClause(ln))
        [] ln.op = "san" -> /\ UNCHANGED tree
